@@ -44,6 +44,8 @@ import GoMC.Model.Writers
 import GoMC.Model.WritersLevel
 import GoMC.Model.WritersNBT
 import GoMC.Model.WritersChunk
+import GoMC.Model.WritersChat
+import Driver.C17
 import GoMC.Model.Readers
 import GoMC.Model.NBTField
 import GoMC.Model.ChunkWire
@@ -223,6 +225,23 @@ def runChunk (p : List String) (s : Stream) : Option (String × Stream) :=
 def runBlockEntity (_ : List String) (s : Stream) : Option (String × Stream) :=
   some (coreV (Model.Chunk.BlockEntity.readFrom (0#8, 0, 0#32, ⟨0#8, []⟩) s) fun e => some (C13.M.entsObs ⟨[e], []⟩))
 
+/-! chat: the NBT form of a text component and the chat-type header (Model/ChatNBT, printed as Driver.C17 / C08 do) -/
+
+def runChatNBT (_ : List String) (s : Stream) : Option (String × Stream) :=
+  some (match ChatNBT.readFrom s with
+    | (.ok (v, n), s') => (s!"ok n={n} v={((ChatNBT.ofGo v).map C17.showMsg).getD "?"}", s')
+    | (.err, s') => ("err", s')
+    | (.panic, s') => ("panic", s'))
+
+def runChatType (_ : List String) (s : Stream) : Option (String × Stream) :=
+  some (match Chat.typeDec C17.goCodec ⟨0, ChatNBT.messageTy.zero, none⟩ s with
+    | (.ok (r, n), s') =>
+      (match ChatNBT.ofGo r.sender, (match r.target with | some x => (ChatNBT.ofGo x).map some | none => some none) with
+        | some a, some b => (s!"ok n={n} v={C17.showType ⟨r.id, a, b⟩}", s')
+        | _, _ => (s!"ok n={n} v=?", s'))
+    | (.err, s') => ("err", s')
+    | (.panic, s') => ("panic", s'))
+
 /-- THE REGISTRY (readers): one line per decoder -/
 def decoders : List (String × Dec) := [
   ("varint", { run := runVar 32 }),
@@ -248,7 +267,9 @@ def decoders : List (String × Dec) := [
   ("palette", { run := runPalette }),
   ("section", { run := runSection }),
   ("chunk", { run := runChunk }),
-  ("blockentity", { run := runBlockEntity })
+  ("blockentity", { run := runBlockEntity }),
+  ("chat.nbt", { run := runChatNBT }),
+  ("chat.type", { run := runChatType })
 ]
 
 def showObs (c : String) (s' : Stream) : String :=
@@ -383,6 +404,16 @@ def encChunk (p : List String) : Option (Wr Unit) :=
     | _ => none
   | _, _ => none
 
+def encChatMsg (p : List String) : Option (Wr Unit) :=
+  ((kv p "m").bind C17.parseMsgTok).map fun m => forget (ChatNBT.wMessage m)
+
+def encChatType (p : List String) : Option (Wr Unit) :=
+  match (kv p "id").bind String.toInt?, (kv p "s").bind C17.parseMsgTok, kv p "t" with
+  | some id, some sender, some ts =>
+    (if ts == "-" then some none else (C17.parseMsgTok ts).map some).map fun target =>
+      forget (ChatNBT.wType ⟨BitVec.ofInt 32 id, sender, target⟩)
+  | _, _, _ => none
+
 /-- ORACLE-ONLY encoders (none at present): encoders without a `Wr` model would be listed here; for them only the generic
 oracle applies (a sink accepting fewer bytes than the encoding ⇒ error; room for all ⇒ success with all bytes) and the
 model column echoes the observation. -/
@@ -398,7 +429,9 @@ def encoders : List (String × (List String → Option (Wr Unit))) := [
   ("palette", encPalette),
   ("section", encSection),
   ("nbt", encNbt),
-  ("chunk", encChunk)
+  ("chunk", encChunk),
+  ("chat.msg", encChatMsg),
+  ("chat.type", encChatType)
 ]
 
 def showW (r : Res Unit × WState) : String := s!"{resTag r.1} wrote={hexOfBytes r.2.out}"
